@@ -59,7 +59,7 @@ let rec build (a : ast) : info =
       | "tup" -> ITuple (List.mapi (fun i v -> (nat_of_int i, v)) vs), true
       | "tupr" -> ITuple (List.map (fun z -> let id = (int_of_z z) land 63 in (nat_of_int id, VInt (z_of_int id))) zs), true
       | "tab" -> let sl = table_slots zs in tabs := !tabs @ [sl]; ITable sl, false
-      | _ -> ITree (tree_inorder zs), false in
+      | _ -> ITree (tree_build zs), false in
     if k = "tab" || k = "tree" then leaves := !leaves @ [(it, n)];
     { it; basesz = n; haslen = true; hasget }
   | Range args ->
